@@ -220,6 +220,7 @@ class Check(object):
         self.assumptions = []
         self.exhaustive = False
         self.tlc_runs = []
+        self.notes = []
         self.known = load_known()
 
     def add_tlc(self, name, r):
